@@ -134,6 +134,33 @@ fn case_strategy(max_rows: usize, nq: usize) -> BoxedStrategy<Case> {
         .boxed()
 }
 
+/// True if some SUM / AVG input's absolute values add up to more than i64::MAX over the filtered rows, i.e. a partial
+/// sum can leave i64 although the total does not.
+fn sum_may_overflow(q: &Query, rows: &[BTreeMap<String, Cell>]) -> bool {
+    let mut inputs: Vec<&Expr> = vec![];
+    for it in &q.select {
+        if let Expr::Agg(k, e) = &it.expr {
+            if matches!(k, AggKind::Sum | AggKind::Avg) {
+                inputs.push(&**e);
+            }
+        }
+    }
+    inputs.iter().any(|e| {
+        let mut total: u128 = 0;
+        for r in rows {
+            if let Some(f) = &q.filter {
+                if !matches!(eval::eval(f, r), Ok(Cell::Int(1))) {
+                    continue;
+                }
+            }
+            if let Ok(Cell::Int(v)) = eval::eval(e, r) {
+                total += v.unsigned_abs() as u128;
+            }
+        }
+        total > i64::MAX as u128
+    })
+}
+
 pub fn kf_shape(gq: &GenQuery, t: &LogicalTable, layout: &Layout) -> Vec<&'static str> {
     let mut out = vec![];
     let ranges = layout.batch_ranges(t.rows);
@@ -154,7 +181,7 @@ pub fn kf_shape(gq: &GenQuery, t: &LogicalTable, layout: &Layout) -> Vec<&'stati
     if l("agg:avg_float") {
         out.push("KF-avg-float");
     }
-    if gq.q.select.iter().any(|i| !i.expr.has_agg()) && t.rows > layout.opts.batch_size {
+    if gq.q.select.iter().any(|i| !i.expr.has_agg()) && t.rows >= layout.opts.batch_size {
         out.push("KF-groupby-streaming");
     }
     let keys: Vec<&Expr> = gq.q.select.iter().map(|i| &i.expr).filter(|e| !e.has_agg()).collect();
@@ -314,6 +341,11 @@ pub fn check(case: &Case, env: &mut CaseEnv) -> Result<(), Failure> {
                 return Err(Failure::mismatch(format!("{}: exact result overflows i64 but the engine returned {:?}", ctx, out.rows_any().iter().take(4).collect::<Vec<_>>())).tag("silent_overflow"));
             }
             (Err(QErr::Overflow), Err(EvalErr::Overflow)) => {}
+            (Err(QErr::Overflow), Ok(_)) if sum_may_overflow(&gq.q, &rows) => {
+                // the total fits, but a partial sum (in whatever order the engine adds) may not: an overflow
+                // error is one of the two outcomes C06 allows for SUM
+                env.class("outcome:partial_sum_may_overflow");
+            }
             (Err(e), exp) => {
                 std::thread::sleep(std::time::Duration::from_millis(30));
                 if let Some(p) = db::db_panics().first() {
